@@ -215,7 +215,8 @@ def load_baseline():
 def run_property(prop, tier='quick', jobs=None, seed=0, only=None, write_baseline=False, extra=None):
     t0 = time.time()
     jobs = jobs or min(16, os.cpu_count() or 4)
-    os.makedirs(os.path.join(VERIF, 'evidence'), exist_ok=True)
+    evdir = os.environ.get('VERIF_EVIDENCE_DIR') or os.path.join(VERIF, 'evidence')
+    os.makedirs(evdir, exist_ok=True)
     groups = _load_contracts(prop)
     if only:
         groups = {k: g for k, g in groups.items() if any(fnmatch.fnmatchcase(k, o) for o in only)}
@@ -456,7 +457,7 @@ def run_property(prop, tier='quick', jobs=None, seed=0, only=None, write_baselin
           'violations': len(final_viol) + (extra_res.get('violations', 0) if extra_res else 0)}
     lvl = _level_override(prop)
     if lvl: ev['level'] = lvl
-    json.dump(ev, open(os.path.join(VERIF, 'evidence', f'{prop}.json'), 'w'), indent=1, default=str)
+    json.dump(ev, open(os.path.join(evdir, f'{prop}.json'), 'w'), indent=1, default=str)
     print(f"{prop} [{tier}] groups={len(groups)} configs={len(results)} bounded={bounded_evals} paths={cov['paths']} obligations={cov['obligations']} discharged={cov['discharged']} "
           f"vcs={cov['vcs_discharged']} cross-checked={cross_checked} canaries={canary_refuted}/{canary_total} "
           f"known={len(known_hits)} violations={ev['violations']} undecided={len(undecided)} wall={ev['wall_s']}s exit={status}")
